@@ -59,7 +59,12 @@ Fixpoint join_comma (parts : list bytes) : bytes :=
   | p :: r => p ++ comma :: join_comma r
   end.
 
-Definition member_bytes (kh : bytes * N) : bytes := fst kh ++ colon :: le64 (snd kh).
+(* one member:  <len(key) as 8 little-endian bytes> key ':' <8 bytes child hash>.
+   The length in front of the key makes the byte string unambiguous whatever
+   bytes the key contains (binary.LittleEndian.PutUint64(keyLen, uint64(len(key)))). *)
+Definition key_len (k : bytes) : N := N.of_nat (List.length k).
+Definition member_bytes (kh : bytes * N) : bytes :=
+  le64 (key_len (fst kh)) ++ fst kh ++ colon :: le64 (snd kh).
 
 Definition sh_name (s : shallow) : bytes :=
   match s with
@@ -116,7 +121,7 @@ Definition shallow_of (v : value) : option shallow :=
   | VBin b => Some (ShBin b)
   end.
 
-(* values.MapHash: the same member encoding without a type tag *)
+(* values.MapHash: the same member encoding (key length included) without a type tag *)
 Definition map_hash (m : list (bytes * value)) : N :=
   fnv (bs "{" ++ join_comma (map member_bytes
          (sort_members (map (fun kv => (fst kv, hash (snd kv))) m))) ++ bs "}").
@@ -253,9 +258,11 @@ Fixpoint inj_tri (H : list (N * value)) : bool :=
 Definition hash_injective_onb (U : list value) : bool :=
   inj_tri (map (fun v => (hash v, norm v)) U).
 
-(* ---- the delimiter collision: for any v, w the objects
+(* ---- the former delimiter collision: while the key was written without its
+   length, for any v, w the objects
      {a: v, b: w}   and   { "a:" ++ le64(hash v) ++ ",b" : w }
-   have the same pre-image *)
+   had the same pre-image.  With the length prefix they no longer do
+   (HashProofs.collide_preimage_differs). *)
 Definition collide_left (v w : value) : value := VObj [(bs "a", v); (bs "b", w)].
 Definition collide_key (hv : N) : bytes := bs "a" ++ colon :: le64 hv ++ comma :: bs "b".
 Definition collide_right (v w : value) : value := VObj [(collide_key (hash v), w)].
